@@ -41,7 +41,9 @@ HasDeep(v) ==
     [] OTHER -> FALSE
 
 \* value in type, by tag and by contents; values cut off by the recorder are not judged
-InType(v, ty) == HasDeep(v) \/ Member(VW(v), Unwire(ty))
+\* ... and its hidden tags / declared cell types must be honest about the contents (WellFormed): every later
+\* run-time type test trusts the tag
+InType(v, ty) == HasDeep(v) \/ (Member(VW(v), Unwire(ty)) /\ WellFormed(VW(v)))
 
 \* machine values (Lang.tla) from the wire, for re-computing operators: only scalars and flat arrays
 Scalar(v) == v.k \in {"bool", "void"} \/ (v.k \in {"int", "float"} /\ "v" \in DOMAIN v) \/ v.k = "string"
@@ -84,6 +86,8 @@ Witness(v, ty, exh) ==
   ELSE IF v.k = "array" /\ ty.k = "array" /\ Matches(Arr(Unwire(v.tag)), t)
           /\ \E i \in 1..Len(v.es) : ~InType(v.es[i], ty.e)
   THEN Witness(v.es[CHOOSE i \in 1..Len(v.es) : ~InType(v.es[i], ty.e)], ty.e, FALSE)
+  ELSE IF ~HasDeep(v) /\ Member(VW(v), t) /\ ~WellFormed(VW(v))
+  THEN [wv |-> [k |-> "dishonest-tag", of |-> Summary(v)], wt |-> ty, exh |-> exh]
   ELSE [wv |-> Summary(v), wt |-> ty, exh |-> exh]
 
 WitnessOf(e) ==
